@@ -308,6 +308,70 @@ def _grouped_task(task, p):
     p.sample(sub, {"axis_days": days, "labels": np.array(labelings[len(labelings) // 2]).tolist(), "candidates_days": cands})
 
 
+def _sequence_task(task, p):
+    """Call sequences in ONE process: axes that share length, first and last stamp (and labels and window) but
+    differ inside.  A result must not depend on what was computed before (memoised indices keyed too coarsely)."""
+    st, ut = _mods()
+    sub = "call_sequences"
+    axes = [c for c in itertools.combinations(range(9), 7) if c[0] == 0 and c[-1] == 8]
+    lab = [0, 1, 0, 1, 2, 2, 0]
+    spelled = ["10", "2", "10", "2", "7", "7", "10"]
+    windows = [(None, None), (3, 13), (2, 12), (5, None), (None, 11)]
+    das = [cube_for(ax) for ax in axes]
+    order = list(range(len(axes))) + list(range(len(axes) - 1, -1, -1))     # forward, then backward
+    for b, e in windows:
+        kw = {}
+        if b is not None:
+            kw["calibration_begin"] = iso(b)
+        if e is not None:
+            kw["calibration_end"] = iso(e)
+        for groups in (lab, spelled):
+            for ai in order:
+                ax, da = axes[ai], das[ai]
+                days = [STEP * k for k in ax]
+                members = [[i for i in range(7) if lab[i] == g] for g in range(3)]
+                per_group = [[i for i in m if (b is None or days[i] >= b) and (e is None or days[i] <= e)] for m in members]
+                valid = all(len(g) >= 2 for g in per_group)
+                p.count(sub, evaluations=1, nontrivial=1)
+                key = {"axis": list(ax), "begin": b, "end": e, "groups": groups}
+                case = {"kind": "seq"}
+                try:
+                    with warnings.catch_warnings():
+                        warnings.simplefilter("ignore")
+                        got = da.hdc.algo.spi(groups=groups, **kw).values.reshape(5, 7)
+                    err = None
+                except ValueError as ex:
+                    err = ex
+                if not valid:
+                    if err is None:
+                        p.violation(sub, key, case, f"spi(groups, {kw}) on axis days {days} (after other axes in the same process): ValueError required, result returned")
+                    continue
+                if err is not None:
+                    p.violation(sub, key, case, f"spi(groups, {kw}) on axis days {days} (after other axes in the same process) raised ValueError({err})")
+                    continue
+                exp = np.full((5, 7), 12345, dtype=np.int64)
+                for m in members:
+                    with warnings.catch_warnings():
+                        warnings.simplefilter("ignore")
+                        exp[:, m] = da.isel(time=m).hdc.algo.spi(**kw).values.reshape(5, len(m))
+                if not np.array_equal(got, exp):
+                    p.violation(sub, key, case, f"spi(groups={groups}, {kw}) on axis days {days}, called after axes with the same length / first / last stamp: "
+                                                f"{got[0].tolist()} differs from the per-group ungrouped SPI {exp[0].tolist()}")
+    # the helper itself, same idea
+    import pandas as pd
+    g = np.array(lab)
+    for ai in order:
+        t = pd.DatetimeIndex([day(STEP * k) for k in axes[ai]])
+        days = [STEP * k for k in axes[ai]]
+        got = np.asarray(ut.get_calibration_indices(t, (iso(3), iso(13)), g, 3)).tolist()
+        exp = [[sum(1 for i in range(7) if g[i] == q and days[i] < 3), sum(1 for i in range(7) if g[i] == q and days[i] <= 13)] for q in range(3)]
+        p.count(sub, evaluations=1)
+        if got != exp:
+            p.violation(sub, {"axis": list(axes[ai]), "fn": "get_calibration_indices"}, {"kind": "seq"},
+                        f"get_calibration_indices on axis days {days} after other axes: {got}, expected {exp}")
+    p.sample(sub, {"axes": len(axes), "same": "length 7, first day 0, last day 16", "order": "forward then backward", "windows": windows})
+
+
 def direct(ctx):
     """to_linspace and get_calibration_indices directly, and 36 dekad groups on a 3-year dekadal axis."""
     import pandas as pd
@@ -387,12 +451,15 @@ def run(ctx):
             tasks.append((ax, chunk, maxk))
     ctx.pmap(_grouped_task, tasks)
     ctx.note("grouped_axes", [list(a) for a in gaxes])
+    ctx.pmap(_sequence_task, [0])
     direct(ctx)
 
 
 def replay(sub, case, p):
     if case["kind"] == "win":
         _ungrouped_task(tuple(case["axis"]), p)
+    elif case["kind"] == "seq":
+        _sequence_task(0, p)
     elif case["kind"] == "tod":
         _tod_task(tuple(case["axis"]), p)
     elif case["kind"] == "grp":
